@@ -561,6 +561,9 @@ func (pe *bufPathEval) walk(b, from *ssa.BasicBlock, st *bpState, depth int) err
 					case "(*bytes.Buffer).WriteString", "(*bytes.Buffer).Write":
 						if s, ok := pe.strOf(call.Common().Args[1], st, 0); ok {
 							pp = pathPiece{cut: &s}
+						} else if k, ok := constString(pe.resolve(call.Common().Args[1], st)); ok {
+							// a string chosen by the branches of this path (end := ""; if … { end = "%2c" })
+							pp = pathPiece{d: relang.Literal(pe.L.A, k)}
 						}
 					}
 				}
